@@ -64,6 +64,7 @@ fn child_modifies_state(
         OptimizedExpr::Push(_) => true,
         OptimizedExpr::Ident(ref name) if name == "DROP" => true,
         OptimizedExpr::Ident(ref name) if name == "POP" => true,
+        OptimizedExpr::Ident(ref name) if name == "POP_ALL" => true,
         OptimizedExpr::Ident(ref name) => match cache.get(name).cloned() {
             Some(option) => match option {
                 Some(cached) => cached,
